@@ -150,8 +150,22 @@ def verdict {α} : Except LoadErr α → String
 
 /-- signature of `RealVectorControlSpace(dim)`: [2, CONTROL_SPACE_REAL_VECTOR = 1, dim] -/
 def ctrlSig : Option Nat → List Int
-  | some d => [2, 1, (d : Int)]
+  | some d => ctrlSignature (.real d)
   | none => []
+
+/-- control-space token of the protocol: `["c:"] comp ("+" comp)*`, comp = `r<d>` | `d`; a compound iff prefixed or several -/
+def parseCs (tok : String) : Option Cs :=
+  let forced := tok.startsWith "c:"
+  let body := if forced then (tok.drop 2).toString else tok
+  let comps := (body.splitOn "+").mapM (fun c =>
+    if c = "d" then some Cs.discrete
+    else if c.startsWith "r" then ((c.drop 1).toString.toNat?).map Cs.real
+    else none)
+  match comps with
+  | some [c] => if forced then some (.compound [c]) else some c
+  | some [] => none
+  | some cs => some (.compound cs)
+  | none => none
 
 def pdMarker (pd : PD) : Nat := if pd.cdim.isSome then markerPDC else markerPD
 
@@ -382,6 +396,20 @@ def step (s : S) (ts : List String) : S × String :=
         | .error _ => (s, "ok=0")
       | _, _ => bad
     | _, _ => bad
+  | "pdctl" :: spid2 :: rest =>
+    -- load the stored control archive into PlannerData objects over (same | other state space) × (listed control spaces):
+    -- accepted exactly when both signatures match
+    match s.pd, spid2.toNat?, takeCounted rest with
+    | some pd, some spid2, some (toks, []) =>
+      match lookup s.spaces pd.space, lookup s.spaces spid2, pd.cdim, toks.mapM parseCs with
+      | some sp, some sp2, some _, some css =>
+        let recs := storeGraph markerPDC (signature sp) (ctrlSig pd.cdim) pd.g
+        let one := fun (tag : String) (sig : List Int) (tok : String) (c : Cs) =>
+          tag ++ tok ++ ":" ++ verdict (loadGraph markerPDC sig (ctrlSignature c) recs)
+        let out := (toks.zip css).flatMap (fun tc => [one "s" (signature sp) tc.1 tc.2, one "o" (signature sp2) tc.1 tc.2])
+        (s, "t=" ++ joinOr "," out)
+      | _, _, _, _ => bad
+    | _, _, _ => bad
   | ["pdreload"] =>
     match s.pd with
     | some pd =>
